@@ -1,8 +1,1421 @@
 package main
 
-import "time"
+import (
+	"encoding/json"
+	"fmt"
+	"os"
+	"os/exec"
+	"path/filepath"
+	"runtime/debug"
+	"sort"
+	"strconv"
+	"strings"
+	"time"
 
-func schedWorker()                                   { infra("schedsim not built yet") }
-func driveSched(kf *KnownFindings, t0 time.Time) int { infra("schedsim not built yet"); return 2 }
-func replaySched(rep *Replay, kf *KnownFindings) int { infra("schedsim not built yet"); return 2 }
-func genSchedPlan(seed uint64, run int) Plan         { return Plan{} }
+	"github.com/nlnwa/whatwg-url/url"
+	rt "github.com/nlnwa/whatwg-url/verifrt"
+)
+
+// schedsim (C14): caller goroutines are real goroutines running the real (instrumented) library,
+// but which one runs is decided only by the plan's schedule. See DESIGN.md section 5.
+
+const (
+	sharedURLBase = 1000 // task ops name shared URL i as handle 1000+i
+	sharedSPBase  = 2000 // and its pre-materialised parameter handle as 2000+i
+)
+
+// ---------------------------------------------------------------- plan generation
+
+func genSchedOps(r *RNG, g *Gen, pl *Plan, task int) []Op {
+	n := r.Range(1, 6)
+	var ops []Op
+	nextU, nextS := 1, 1
+	var priv []int
+	var privSP []int
+	nShared := len(pl.Shared)
+	sharedHasSP := func(i int) bool {
+		for _, op := range pl.Shared[i] {
+			if op.K == "getsp" {
+				return true
+			}
+		}
+		return false
+	}
+	for len(ops) < n {
+		switch r.Weighted([]int{6, 3, 3, 2, 2, 1, 2, 4, 1}) {
+		case 0: // resolve against a shared base (the crawler pattern)
+			if nShared == 0 {
+				continue
+			}
+			s := r.Intn(nShared)
+			ops = append(ops, Op{K: "resolve", P: pl.SharedP[s], H: sharedURLBase + s, D: nextU, A: QS(g.Ref())})
+			priv = append(priv, nextU)
+			nextU++
+		case 1: // parse with a shared parser / profile
+			p := r.Intn(len(pl.Parsers))
+			op := Op{K: "parse", P: p, D: nextU, A: QS(g.URL())}
+			if r.Chance(1, 3) {
+				op.W, op.B, op.A = 1, QS(g.Base()), QS(g.Ref())
+			}
+			ops = append(ops, op)
+			priv = append(priv, nextU)
+			nextU++
+		case 2: // getter bundle on a shared URL
+			if nShared == 0 {
+				continue
+			}
+			ops = append(ops, Op{K: "obs", H: sharedURLBase + r.Intn(nShared)})
+		case 3: // clone a shared URL
+			if nShared == 0 {
+				continue
+			}
+			s := r.Intn(nShared)
+			ops = append(ops, Op{K: "clone", P: pl.SharedP[s], H: sharedURLBase + s, D: nextU})
+			priv = append(priv, nextU)
+			nextU++
+		case 4: // read pre-materialised parameters of a shared URL
+			if nShared == 0 {
+				continue
+			}
+			s := r.Intn(nShared)
+			if !sharedHasSP(s) {
+				continue
+			}
+			k := []string{"sp.get", "sp.getall", "sp.has", "sp.string"}[r.Intn(4)]
+			ops = append(ops, Op{K: k, H: sharedSPBase + s, A: QS(g.Name())})
+		case 5: // PercentEncodeString / NewUrl on a shared parser
+			p := r.Intn(len(pl.Parsers))
+			if r.Chance(1, 3) {
+				ops = append(ops, Op{K: "newurl", P: p, D: nextU})
+				priv = append(priv, nextU)
+				nextU++
+			} else {
+				ops = append(ops, Op{K: "pes", P: p, A: QS(g.URL()), W: r.Intn(16)})
+			}
+		case 6: // shared exported tables: derive / query
+			ops = append(ops, Op{K: "tbl", W: r.Intn(64), A: QS(g.pick(gHostile))})
+		case 7: // private follow-ups on values this task obtained (legal mutations)
+			if len(priv) == 0 {
+				continue
+			}
+			u := priv[r.Intn(len(priv))]
+			switch r.Intn(5) {
+			case 0, 1:
+				w := r.Intn(9)
+				ops = append(ops, Op{K: "set", H: u, W: w, A: QS(g.SetterValue(w))})
+			case 2:
+				ops = append(ops, Op{K: "getsp", H: u, D: nextS})
+				privSP = append(privSP, nextS)
+				nextS++
+			case 3:
+				if len(privSP) == 0 {
+					continue
+				}
+				s := privSP[r.Intn(len(privSP))]
+				switch r.Intn(4) {
+				case 0:
+					ops = append(ops, Op{K: "sp.append", H: s, A: QS(g.Name()), B: QS(g.Value())})
+				case 1:
+					ops = append(ops, Op{K: "sp.set", H: s, A: QS(g.Name()), B: QS(g.Value())})
+				case 2:
+					ops = append(ops, Op{K: "sp.delete", H: s, A: QS(g.Name())})
+				case 3:
+					ops = append(ops, Op{K: "sp.sort", H: s})
+				}
+			case 4:
+				ops = append(ops, Op{K: "resolve", H: u, D: nextU, A: QS(g.Ref())})
+				priv = append(priv, nextU)
+				nextU++
+			}
+		case 8: // read a private value
+			if len(priv) == 0 {
+				continue
+			}
+			ops = append(ops, Op{K: "obs", H: priv[r.Intn(len(priv))]})
+		}
+	}
+	return ops
+}
+
+// c14Config draws a configuration for a shared parser. Result-changing options are fine here: the
+// oracle is "same as alone", not a semantic one.
+func c14Config(r *RNG) Config {
+	switch r.Intn(8) {
+	case 0, 1, 2:
+		return Config{} // the package-level default parser
+	case 3:
+		return Config{Profile: []string{"WhatWg", "WhatWgSortQuery", "GoogleSafeBrowsing", "Semantic"}[r.Intn(4)]}
+	case 4:
+		return Config{Profile: "GoogleSafeBrowsing"}
+	}
+	c := genConfig(r, false)
+	// failOnVE makes nearly everything an error; keep it rare
+	if r.Chance(3, 4) {
+		var o []OptSpec
+		for _, x := range c.Opts {
+			if x.N != "failOnVE" {
+				o = append(o, x)
+			}
+		}
+		c.Opts = o
+	}
+	return c
+}
+
+func genSchedPlan(master uint64, run int) Plan {
+	seed := runSeed(master, "C14", run)
+	r := NewRNG(seed)
+	g := newGen(r)
+	g.hostile = 6
+	pl := Plan{Prop: "C14", Seed: master, Run: run}
+	np := r.Range(1, 3)
+	for i := 0; i < np; i++ {
+		pl.Parsers = append(pl.Parsers, c14Config(r))
+	}
+	ns := r.Weighted([]int{1, 6, 3, 1})
+	for i := 0; i < ns; i++ {
+		p := r.Intn(np)
+		var pre []Op
+		in := g.URL()
+		if r.Chance(1, 2) {
+			in = g.pick(corpusHrefs)
+		}
+		if r.Chance(1, 3) {
+			in = g.pick([]string{"http://user:pw@example.com:8080/a/b/c?x=1&y=2#frag", "https://h/p/q/?a=b", "file:///C:/x/y", "foo://h/a/b?q", "http://1.2.3.4/x?k=v&k=w", "ws://[::1]:81/s?a+b=c%20d"})
+		}
+		pre = append(pre, Op{K: "parse", P: p, D: 1, A: QS(in)})
+		k := r.Intn(3)
+		for j := 0; j < k && r.Chance(1, 2); j++ {
+			w := r.Intn(9)
+			pre = append(pre, Op{K: "set", H: 1, W: w, A: QS(g.SetterValue(w))})
+		}
+		if r.Chance(1, 2) {
+			pre = append(pre, Op{K: "getsp", H: 1, D: 1}) // materialised before sharing
+			if r.Chance(1, 3) {
+				pre = append(pre, Op{K: "sp.append", H: 1, A: QS(g.Name()), B: QS(g.Value())})
+			}
+		}
+		pl.Shared = append(pl.Shared, pre)
+		pl.SharedP = append(pl.SharedP, p)
+	}
+	nt := r.Range(2, 4)
+	for t := 0; t < nt; t++ {
+		pl.Tasks = append(pl.Tasks, genSchedOps(r, g, &pl, t))
+	}
+	pl.Strategy = []string{"uniform", "uniform", "pct", "pct", "stall", "stall", "opwise", "sequential"}[r.Intn(8)]
+	pl.FpEvery = r.Chance(1, 8)
+	return pl
+}
+
+// genSchedule derives the explicit schedule from the run seed and the per-operation statement counts
+// observed in the twin (run-alone) execution. steps[t][k] = statements of op k of task t;
+// hot[t] = statement indices (within the task) at which in-flight-state sites were executed.
+func genSchedule(pl *Plan, steps [][]int64, hot [][]int64) []Quantum {
+	r := NewRNG(runSeed(pl.Seed, "C14.schedule", pl.Run))
+	nt := len(pl.Tasks)
+	total := make([]int64, nt)
+	var grand int64
+	for t := range steps {
+		for _, s := range steps[t] {
+			total[t] += s
+		}
+		grand += total[t]
+	}
+	var q []Quantum
+	switch pl.Strategy {
+	case "sequential":
+		for t := 0; t < nt; t++ {
+			q = append(q, Quantum{T: t, Kind: rt.KTaskEnd})
+		}
+	case "opwise":
+		n := 0
+		for t := range pl.Tasks {
+			n += len(pl.Tasks[t])
+		}
+		for i := 0; i < 2*n+4; i++ {
+			q = append(q, Quantum{T: r.Intn(nt), Kind: rt.KOpEnd})
+		}
+	case "uniform":
+		mix := r.Intn(3)
+		for i := 0; i < 600; i++ {
+			t := r.Intn(nt)
+			switch {
+			case mix == 0 || r.Chance(1, 3):
+				q = append(q, Quantum{T: t, N: int64(r.Range(1, 3))})
+			case mix == 1 || r.Chance(1, 2):
+				q = append(q, Quantum{T: t, N: int64(r.Range(4, 80))})
+			default:
+				q = append(q, Quantum{T: t, Kind: rt.KOpEnd})
+			}
+		}
+	case "pct":
+		// PCT: random priorities, d change points over the step positions known from the twin run
+		d := r.Range(1, 3)
+		prio := make([]int, nt)
+		for t := range prio {
+			prio[t] = d + 1 + t
+		}
+		for i := nt - 1; i > 0; i-- {
+			j := r.Intn(i + 1)
+			prio[i], prio[j] = prio[j], prio[i]
+		}
+		var cps []int64
+		for i := 0; i < d; i++ {
+			if grand > 0 {
+				cps = append(cps, int64(r.U64()%uint64(grand))+1)
+			}
+		}
+		sort.Slice(cps, func(i, j int) bool { return cps[i] < cps[j] })
+		rem := append([]int64(nil), total...)
+		var done int64
+		ci := 0
+		for {
+			best := -1
+			for t := 0; t < nt; t++ {
+				if rem[t] > 0 && (best < 0 || prio[t] > prio[best]) {
+					best = t
+				}
+			}
+			if best < 0 {
+				break
+			}
+			n := rem[best]
+			if ci < len(cps) && cps[ci]-done < n {
+				n = cps[ci] - done
+			}
+			if n <= 0 {
+				n = 1
+			}
+			q = append(q, Quantum{T: best, N: n})
+			rem[best] -= n
+			done += n
+			if ci < len(cps) && done >= cps[ci] {
+				prio[best] = d - ci // drop below every initial priority
+				ci++
+			}
+		}
+	case "stall":
+		// park one task mid-call at a chosen statement until the others completed k operations (or all)
+		i := r.Intn(nt)
+		var n int64 = 1
+		if len(hot[i]) > 0 && r.Chance(2, 3) {
+			n = hot[i][r.Intn(len(hot[i]))] + int64(r.Intn(3))
+		} else if total[i] > 0 {
+			n = int64(r.U64()%uint64(total[i])) + 1
+		}
+		q = append(q, Quantum{T: i, N: n})
+		var others []int
+		for t := 0; t < nt; t++ {
+			if t != i {
+				others = append(others, t)
+			}
+		}
+		for k := len(others) - 1; k > 0; k-- {
+			j := r.Intn(k + 1)
+			others[k], others[j] = others[j], others[k]
+		}
+		if r.Chance(1, 2) {
+			for _, t := range others {
+				q = append(q, Quantum{T: t, Kind: rt.KTaskEnd})
+			}
+		} else {
+			k := r.Range(1, 4)
+			for j := 0; j < k; j++ {
+				for _, t := range others {
+					q = append(q, Quantum{T: t, Kind: rt.KOpEnd})
+				}
+			}
+			// a second stall in another task while the first is still parked
+			if len(others) > 0 && r.Chance(1, 2) {
+				q = append(q, Quantum{T: others[0], N: int64(r.Range(1, 60))})
+			}
+		}
+		q = append(q, Quantum{T: i, Kind: rt.KTaskEnd})
+	}
+	return q
+}
+
+// ---------------------------------------------------------------- execution
+
+type schedWorld struct {
+	parsers []url.Parser // nil entry = package-level default parser
+	shared  []*url.Url
+	sharedS []*url.SearchParams
+	names   []string
+	objs    []interface{}
+}
+
+// buildSchedWorld constructs the shared objects of a plan (sequentially, on the calling goroutine).
+func buildSchedWorld(pl *Plan) *schedWorld {
+	sw := &schedWorld{}
+	for i, c := range pl.Parsers {
+		var p url.Parser
+		if c.Profile != "" || len(c.Opts) > 0 {
+			p = buildParser(c)
+		}
+		sw.parsers = append(sw.parsers, p)
+		if p != nil {
+			sw.names = append(sw.names, fmt.Sprintf("parser%d(%s)", i, c.String()))
+			sw.objs = append(sw.objs, p)
+		}
+	}
+	for i, pre := range pl.Shared {
+		w := &World{Cfg: pl.Parsers[pl.SharedP[i]], P: sw.parsers[pl.SharedP[i]], U: map[int]*UH{}, S: map[int]*SH{}, Cur: map[int]Obs{}, Prev: map[int]Obs{}, CurL: map[int][]Pair{}, PrevL: map[int][]Pair{}, sched: true}
+		for k, op := range pre {
+			w.exec(k, op)
+		}
+		var u *url.Url
+		var sp *url.SearchParams
+		if uh := w.U[1]; uh != nil {
+			u = uh.U
+		}
+		if sh := w.S[1]; sh != nil {
+			sp = sh.SP
+		}
+		sw.shared = append(sw.shared, u)
+		sw.sharedS = append(sw.sharedS, sp)
+		if u != nil {
+			sw.names = append(sw.names, fmt.Sprintf("sharedURL%d", i))
+			sw.objs = append(sw.objs, u)
+		}
+	}
+	return sw
+}
+
+// taskWorld gives one task its private world with the shared handles mapped in.
+func (sw *schedWorld) taskWorld(pl *Plan) *World {
+	w := &World{U: map[int]*UH{}, S: map[int]*SH{}, Cur: map[int]Obs{}, Prev: map[int]Obs{}, CurL: map[int][]Pair{}, PrevL: map[int][]Pair{}, sched: true}
+	for i, u := range sw.shared {
+		if u != nil {
+			w.U[sharedURLBase+i] = &UH{ID: sharedURLBase + i, U: u, Prov: "shared", From: -1}
+		}
+		if sw.sharedS[i] != nil {
+			w.S[sharedSPBase+i] = &SH{ID: sharedSPBase + i, SP: sw.sharedS[i], Of: sharedURLBase + i}
+		}
+	}
+	return w
+}
+
+var tblSets []*url.PercentEncodeSet
+
+// execTaskOp performs one task operation and returns its observation (what the caller sees).
+func (sw *schedWorld) execTaskOp(w *World, k int, op Op) (res string) {
+	defer func() {
+		if e := recover(); e != nil {
+			if _, ok := e.(rt.StepLimit); ok {
+				res = "HANG"
+				return
+			}
+			res = "PANIC@" + libFrame(string(debug.Stack()))
+		}
+	}()
+	switch op.K {
+	case "parse", "newurl", "pes":
+		w.P = sw.parsers[op.P%len(sw.parsers)]
+	case "resolve", "clone":
+		// the parser is the base's own
+	case "tbl":
+		sets := tblSets
+		s := sets[op.W%len(sets)]
+		r := []rune(string(op.A) + "a")[0]
+		switch (op.W / len(sets)) % 3 {
+		case 0:
+			d := s.Set(uint(r) & 0x7f)
+			return fmt.Sprintf("tbl.Set:%v/%v", d.RuneShouldBeEncoded(r), s.RuneShouldBeEncoded(r))
+		case 1:
+			d := s.Clear(uint(r) & 0x7f)
+			return fmt.Sprintf("tbl.Clear:%v/%v", d.RuneShouldBeEncoded(r), s.RuneShouldBeEncoded(r))
+		}
+		return fmt.Sprintf("tbl.Test:%v/%v/%v", s.RuneShouldBeEncoded(r), s.ByteShouldBeEncoded(byte(r)), s.RuneNotInSet(r))
+	}
+	if op.K == "pes" {
+		p := w.P
+		if p == nil {
+			p = url.NewParser()
+		}
+		return "pes:" + p.PercentEncodeString(string(op.A), tblSets[op.W%len(tblSets)])
+	}
+	ev := w.exec(k, op)
+	if ev.Skipped {
+		return "skipped"
+	}
+	if ev.Panic != "" {
+		return "PANIC@" + ev.Panic
+	}
+	if ev.Hang {
+		return "HANG"
+	}
+	var sb strings.Builder
+	sb.WriteString(op.K)
+	if ev.Err != "" {
+		sb.WriteString(" err=" + ev.Err)
+	}
+	see := func(id int) {
+		if uh := w.U[id]; uh != nil {
+			sb.WriteString(" " + observe(uh.U).Key())
+		}
+	}
+	switch {
+	case ev.Created >= 0:
+		see(ev.Created)
+	case ev.Target >= 0:
+		see(ev.Target)
+	case ev.Read >= 0:
+		see(ev.Read)
+	}
+	if ev.TargetS >= 0 {
+		sh := w.S[ev.TargetS]
+		switch op.K {
+		case "sp.get":
+			sb.WriteString(" get=" + sh.SP.Get(string(op.A)))
+		case "sp.getall":
+			sb.WriteString(fmt.Sprintf(" getall=%q", sh.SP.GetAll(string(op.A))))
+		case "sp.has":
+			sb.WriteString(fmt.Sprintf(" has=%v", sh.SP.Has(string(op.A))))
+		default:
+			sb.WriteString(" str=" + sh.SP.String())
+		}
+	}
+	return sb.String()
+}
+
+type SchedResult struct {
+	Clause     string            `json:"clause,omitempty"`
+	Witness    map[string]string `json:"witness,omitempty"`
+	Steps      int64             `json:"steps"`
+	Switches   int               `json:"switches"`
+	InLib      int               `json:"switches_in_library"`
+	ILHash     uint64            `json:"interleaving_hash"`
+	ResHash    uint64            `json:"result_hash"`
+	Blocked    bool              `json:"blocked,omitempty"`
+	Faults     map[string]int    `json:"faults,omitempty"`
+	Schedule   []Quantum         `json:"schedule,omitempty"`
+	TaskAborts int               `json:"task_aborts"`
+	FpNodes    int               `json:"fp_nodes"`
+	Trace      []string          `json:"trace,omitempty"`
+}
+
+var globals0 FP // fingerprint of all package-level variables at process start
+
+// runSched executes one schedsim plan: twin (alone) run, then the scheduled concurrent run.
+func runSched(pl *Plan, atomic bool, keepTrace bool) (res SchedResult) {
+	res.Faults = map[string]int{}
+	nt := len(pl.Tasks)
+
+	// ---- phase 1: "run alone" reference on a twin world
+	rt.Mode = 1
+	rt.Limit = 0
+	twin := buildSchedWorld(pl)
+	want := make([][]string, nt)
+	steps := make([][]int64, nt)
+	hot := make([][]int64, nt)
+	for t := 0; t < nt; t++ {
+		w := twin.taskWorld(pl)
+		var base int64
+		for k, op := range pl.Tasks[t] {
+			rt.Count = 0
+			rt.TraceOn, rt.Trace = true, rt.Trace[:0]
+			want[t] = append(want[t], twin.execTaskOp(w, k, op))
+			rt.TraceOn = false
+			steps[t] = append(steps[t], rt.Count)
+			for i, s := range rt.Trace {
+				if hotSite[s] {
+					hot[t] = append(hot[t], base+int64(i)+1)
+				}
+			}
+			base += rt.Count
+		}
+	}
+	fpTwin := fpObjects(twin.names, twin.objs)
+	_ = fpTwin
+	if d := globals0.Diff(fpGlobals()); len(d) > 0 {
+		res.Clause = "C14.shared-unchanged"
+		res.Witness = map[string]string{"changed": strings.Join(d, ","), "when": "sequential run of the plan's operations (package-level variable modified after initialisation)"}
+		return
+	}
+
+	// ---- phase 2: the scheduled run on fresh shared objects
+	sched := pl.Schedule
+	if len(sched) == 0 {
+		sched = genSchedule(pl, steps, hot)
+	}
+	if atomic {
+		var a []Quantum
+		for _, q := range sched {
+			if q.Kind == rt.KStmts {
+				q = Quantum{T: q.T, Kind: rt.KOpEnd}
+			}
+			a = append(a, q)
+		}
+		sched = a
+	}
+	res.Schedule = sched
+	sw := buildSchedWorld(pl)
+	fp0 := fpObjects(sw.names, sw.objs)
+	res.FpNodes = fp0.Nodes + globals0.Nodes
+	got := make([][]string, nt)
+	tasks := make([]*rt.Task, nt)
+	worlds := make([]*World, nt)
+	for t := range tasks {
+		tasks[t] = &rt.Task{ID: t, Resume: make(chan struct{}), OpLimit: 50_000_000}
+		worlds[t] = sw.taskWorld(pl)
+		got[t] = make([]string, len(pl.Tasks[t]))
+	}
+	done := make(chan struct{}, nt)
+	rt.Mode = 2
+	for t := range tasks {
+		t := t
+		go func() {
+			tk := tasks[t]
+			rt.WaitStart(tk)
+			for k, op := range pl.Tasks[t] {
+				rt.OpBegin(tk)
+				got[t][k] = sw.execTaskOp(worlds[t], k, op)
+				rt.OpEnd(tk)
+			}
+			rt.Finish(tk)
+			done <- struct{}{}
+		}()
+	}
+	il := newHasher()
+	var viol func(clause string, kv ...string)
+	viol = func(clause string, kv ...string) {
+		if res.Clause != "" {
+			return
+		}
+		f := fail(clause, kv...)
+		res.Clause, res.Witness = f.Clause, f.Witness
+	}
+	schedLoop(pl, sched, tasks, sw, fp0, &res, il, viol, keepTrace)
+	if res.Blocked {
+		return
+	}
+	for range tasks {
+		<-done
+	}
+	rt.Mode = 1
+	res.ILHash = il.h
+	// ---- oracles after the join
+	if d := fp0.Diff(fpObjects(sw.names, sw.objs)); len(d) > 0 {
+		viol("C14.shared-unchanged", "changed", strings.Join(d, ","), "when", "after all tasks finished")
+	}
+	if d := globals0.Diff(fpGlobals()); len(d) > 0 {
+		viol("C14.shared-unchanged", "changed", strings.Join(d, ","), "when", "after all tasks finished (package-level variable)")
+	}
+	rh := newHasher()
+	for t := range got {
+		for k := range got[t] {
+			rh.add(got[t][k])
+			if strings.HasPrefix(got[t][k], "PANIC@") || got[t][k] == "HANG" {
+				res.TaskAborts++
+			}
+			if got[t][k] != want[t][k] {
+				viol("C14.result", "task", fmt.Sprint(t), "op", fmt.Sprintf("%d: %s", k, pl.Tasks[t][k].String()), "concurrent", q(clip(got[t][k], 300)), "alone", q(clip(want[t][k], 300)))
+			}
+		}
+	}
+	res.ResHash = rh.h
+	for _, tk := range tasks {
+		res.Steps += tk.Steps
+	}
+	return
+}
+
+func clip(s string, n int) string {
+	if len(s) > n {
+		return s[:n] + "..."
+	}
+	return s
+}
+
+var hotSite []bool
+
+func initHotSites() {
+	hotSite = make([]bool, rt.NSites+1)
+	for i, n := range rt.SiteNames {
+		for _, f := range []string{"url/url.go:", "url/searchparams.go:", "url/codesets.go:", "url/path.go:", "canonicalizer/canonicalizer.go:"} {
+			if strings.HasPrefix(n, f) {
+				hotSite[i] = true
+			}
+		}
+	}
+}
+
+// schedLoop is the scheduler: it owns every decision. It runs on the calling goroutine with race
+// synchronisation events disabled, so that the hand-off channels create no happens-before edges.
+// Because its own synchronisation is invisible to the race runtime it must not touch anything that
+// is shared with tasks through sync primitives (no fmt: its printer pool would look racy).
+//
+//go:norace
+func schedLoop(pl *Plan, sched []Quantum, tasks []*rt.Task, sw *schedWorld, fp0 FP, res *SchedResult, il *hasher, viol func(string, ...string), keepTrace bool) {
+	rt.SchedBegin()
+	defer rt.SchedEnd()
+	defer func() { rt.Current = nil }()
+	live := len(tasks)
+	qi := 0
+	timer := time.NewTimer(time.Hour)
+	defer timer.Stop()
+	started := make([]bool, len(tasks))
+	var lastTask = -1
+	for live > 0 {
+		var q Quantum
+		if qi < len(sched) {
+			q = sched[qi]
+			qi++
+			if q.T < 0 || q.T >= len(tasks) || tasks[q.T].Done {
+				continue
+			}
+		} else {
+			q = Quantum{T: -1, Kind: rt.KTaskEnd}
+			for t, tk := range tasks {
+				if !tk.Done {
+					q.T = t
+					break
+				}
+			}
+		}
+		tk := tasks[q.T]
+		if lastTask >= 0 && lastTask != q.T {
+			res.Switches++
+			if tasks[lastTask].InOp && !tasks[lastTask].Done {
+				res.InLib++
+				res.Faults["preempt(mid-call)"]++
+				if q.Kind != rt.KStmts {
+					res.Faults["stall(others complete whole operations)"]++
+				}
+			}
+		}
+		lastTask = q.T
+		tk.Kind, tk.Budget = q.Kind, q.N
+		if q.Kind == rt.KStmts && q.N <= 0 {
+			tk.Budget = 1
+		}
+		rt.Current = tk
+		_ = started
+		for {
+			tk.Resume <- struct{}{}
+			var ev int
+			if !timer.Stop() {
+				select {
+				case <-timer.C:
+				default:
+				}
+			}
+			timer.Reset(20 * time.Second)
+			select {
+			case ev = <-rt.ToSched:
+			case <-timer.C:
+				res.Blocked = true
+				return
+			}
+			if ev == rt.EvOpEnd {
+				il.add("t" + strconv.Itoa(q.T) + ".op")
+				if !rt.RaceBuild {
+					if d := fp0.Diff(fpObjects(sw.names, sw.objs)); len(d) > 0 {
+						viol("C14.shared-unchanged", "changed", strings.Join(d, ","), "when", "after an operation of task "+strconv.Itoa(q.T)+" completed")
+					}
+				}
+				if q.Kind == rt.KOpEnd {
+					break
+				}
+				continue // quantum not used up: same task goes on
+			}
+			if ev == rt.EvFinish {
+				live--
+				il.add("t" + strconv.Itoa(q.T) + ".end")
+				break
+			}
+			// EvYield: preempted at a statement
+			il.add("t" + strconv.Itoa(q.T) + "@" + strconv.Itoa(int(tk.Site)))
+			if keepTrace {
+				res.Trace = append(res.Trace, "task "+strconv.Itoa(q.T)+" preempted at "+rt.SiteNames[tk.Site]+" after "+strconv.FormatInt(tk.Steps, 10)+" statements")
+			}
+			if pl.FpEvery && !rt.RaceBuild {
+				if d := fp0.Diff(fpObjects(sw.names, sw.objs)); len(d) > 0 {
+					viol("C14.shared-unchanged", "changed", strings.Join(d, ","), "when", "task "+strconv.Itoa(q.T)+" parked at "+rt.SiteNames[tk.Site])
+				}
+			}
+			break
+		}
+	}
+}
+
+// ---------------------------------------------------------------- worker
+
+func schedInit() {
+	setMenu()
+	tblSets = setMenu()
+	initHotSites()
+	globals0 = fpGlobals()
+}
+
+func schedWorker() {
+	schedInit()
+	seed := masterSeed()
+	out := &WorkerOut{Prop: "C14", Faults: map[string]int{}, Known: map[string]int{}, Aborted: map[string]int{}, Extra: map[string]int64{}}
+	seen := map[uint64]struct{}{}
+	states := newHLL()
+	t0 := time.Now()
+	prog := *fOut + ".progress"
+	for i := *fOffset; i < *fRuns; i += *fStride {
+		if rt.RaceBuild {
+			_ = os.WriteFile(prog, []byte(fmt.Sprint(i)), 0o644)
+		}
+		pl := genSchedPlan(seed, i)
+		res := runSched(&pl, *fAtomic, false)
+		if res.Blocked {
+			out.Blocked++
+			out.BlockedRun = i
+			out.WallS = time.Since(t0).Seconds()
+			writeOut(out)
+			os.Exit(4)
+		}
+		out.Runs++
+		out.Steps += res.Steps
+		out.Extra["switches"] += int64(res.Switches)
+		out.Extra["switches_inside_library_calls"] += int64(res.InLib)
+		out.Extra["strategy:"+pl.Strategy]++
+		out.Extra["task_op_aborts(panic/hang, C02's business)"] += int64(res.TaskAborts)
+		out.Extra["fingerprint_nodes_last"] = int64(res.FpNodes)
+		for t := range pl.Tasks {
+			out.Events += int64(len(pl.Tasks[t]))
+		}
+		for k, v := range res.Faults {
+			out.Faults[k] += v
+		}
+		states.Add(res.ILHash)
+		out.Digest = out.Digest*1099511628211 ^ res.ILHash ^ (res.ResHash * 31)
+		if res.InLib > 0 {
+			h := res.ILHash ^ res.ResHash*31
+			if _, ok := seen[h]; !ok {
+				seen[h] = struct{}{}
+				if len(out.Samples) < 2 && res.Switches <= 12 {
+					pl.Schedule = res.Schedule
+					s, _ := json.Marshal(map[string]interface{}{"run": i, "trace": schedTrace(&pl)})
+					out.Samples = append(out.Samples, s)
+				}
+			}
+		}
+		if res.Clause != "" {
+			pl.Schedule = res.Schedule
+			out.Viol = &FoundViolation{Run: i, Plan: pl, V: Violation{Clause: res.Clause, Witness: res.Witness}}
+			break
+		}
+		if (i/(*fStride))%25 == 0 {
+			pl2 := genSchedPlan(seed, i)
+			res2 := runSched(&pl2, *fAtomic, false)
+			if res2.ILHash != res.ILHash || res2.ResHash != res.ResHash {
+				infra("nondeterminism: C14 run %d: interleaving %x/%x results %x/%x", i, res.ILHash, res2.ILHash, res.ResHash, res2.ResHash)
+			}
+			out.Redone++
+		}
+	}
+	for h := range seen {
+		out.Hashes = append(out.Hashes, h)
+	}
+	sort.Slice(out.Hashes, func(i, j int) bool { return out.Hashes[i] < out.Hashes[j] })
+	out.Hits = rt.Hits
+	out.States = states.R
+	out.WallS = time.Since(t0).Seconds()
+	writeOut(out)
+}
+
+func schedTrace(pl *Plan) []string {
+	var t []string
+	for i, c := range pl.Parsers {
+		t = append(t, fmt.Sprintf("shared parser %d: %s", i, c.String()))
+	}
+	for i, pre := range pl.Shared {
+		var l []string
+		for _, op := range pre {
+			l = append(l, op.String())
+		}
+		t = append(t, fmt.Sprintf("shared url %d (handle %d, parser %d): %s", i, sharedURLBase+i, pl.SharedP[i], strings.Join(l, "; ")))
+	}
+	for i, ops := range pl.Tasks {
+		for k, op := range ops {
+			t = append(t, fmt.Sprintf("task %d op %d: %s", i, k, op.String()))
+		}
+	}
+	var qs []string
+	for _, q := range pl.Schedule {
+		switch q.Kind {
+		case rt.KStmts:
+			qs = append(qs, fmt.Sprintf("t%d:%d", q.T, q.N))
+		case rt.KOpEnd:
+			qs = append(qs, fmt.Sprintf("t%d:op", q.T))
+		default:
+			qs = append(qs, fmt.Sprintf("t%d:end", q.T))
+		}
+		if len(qs) > 40 {
+			qs = append(qs, "...")
+			break
+		}
+	}
+	t = append(t, "schedule ("+pl.Strategy+"): "+strings.Join(qs, " "))
+	return t
+}
+
+// ---------------------------------------------------------------- one plan in a child process
+
+type oneResult struct {
+	Res      SchedResult `json:"res"`
+	Race     bool        `json:"race"`
+	RaceSig  string      `json:"race_sig,omitempty"`
+	RaceText string      `json:"race_text,omitempty"`
+	Exit     int         `json:"exit"`
+}
+
+// schedOne (mode "schedone"): run the plan in -file, print the SchedResult as JSON.
+func schedOne() {
+	schedInit()
+	data, err := os.ReadFile(*fFile)
+	if err != nil {
+		infra("%v", err)
+	}
+	var pl Plan
+	if err := json.Unmarshal(data, &pl); err != nil {
+		infra("plan: %v", err)
+	}
+	res := runSched(&pl, *fAtomic, true)
+	b, _ := json.Marshal(res)
+	if err := os.WriteFile(*fOut, b, 0o644); err != nil {
+		infra("%v", err)
+	}
+}
+
+// raceSignature extracts the unordered pair of top library frames from a race report.
+func raceSignature(report string) string {
+	var tops []string
+	lines := strings.Split(report, "\n")
+	for i := 0; i < len(lines); i++ {
+		l := strings.TrimSpace(lines[i])
+		if strings.HasPrefix(l, "Write at") || strings.HasPrefix(l, "Read at") || strings.HasPrefix(l, "Previous write at") || strings.HasPrefix(l, "Previous read at") {
+			// the following lines alternate "func(...)" / "file:line +0x.."; find the first library frame
+			for j := i + 1; j < len(lines) && strings.TrimSpace(lines[j]) != ""; j++ {
+				fl := strings.TrimSpace(lines[j])
+				if strings.Contains(fl, "whatwg-url") && strings.Contains(fl, ".go:") && !strings.Contains(fl, "/verifrt/") {
+					tops = append(tops, libFrame(fl))
+					break
+				}
+			}
+		}
+	}
+	if len(tops) > 2 {
+		tops = tops[:2]
+	}
+	sort.Strings(tops)
+	return strings.Join(tops, " <-> ")
+}
+
+// runOne executes one plan in a fresh child (plain or race build) and returns what happened.
+func runOne(bin string, pl *Plan, tmp string, atomic bool) oneResult {
+	pf := filepath.Join(tmp, fmt.Sprintf("one-%d.json", time.Now().UnixNano()))
+	b, _ := json.Marshal(pl)
+	_ = os.WriteFile(pf, b, 0o644)
+	defer os.Remove(pf)
+	of := pf + ".out"
+	defer os.Remove(of)
+	rl := pf + ".race"
+	args := []string{"-mode", "schedone", "-file", pf, "-out", of, "-verif", *fVerif}
+	if atomic {
+		args = append(args, "-atomic")
+	}
+	cmd := exec.Command(bin, args...)
+	cmd.Env = append(os.Environ(), "GORACE=halt_on_error=1 exitcode=66 log_path="+rl)
+	var r oneResult
+	outb, err := cmd.CombinedOutput()
+	if err != nil {
+		if ee, ok := err.(*exec.ExitError); ok {
+			r.Exit = ee.ExitCode()
+		} else {
+			infra("runOne: %v", err)
+		}
+	}
+	if r.Exit == 66 {
+		r.Race = true
+		ms, _ := filepath.Glob(rl + ".*")
+		for _, m := range ms {
+			d, _ := os.ReadFile(m)
+			r.RaceText += string(d)
+			os.Remove(m)
+		}
+		r.RaceSig = raceSignature(r.RaceText)
+		return r
+	}
+	ms, _ := filepath.Glob(rl + ".*")
+	for _, m := range ms {
+		os.Remove(m)
+	}
+	if r.Exit != 0 {
+		infra("runOne: child exit %d: %s", r.Exit, tailStr(string(outb), 2000))
+	}
+	d, err := os.ReadFile(of)
+	if err != nil {
+		infra("runOne: %v", err)
+	}
+	if err := json.Unmarshal(d, &r.Res); err != nil {
+		infra("runOne: %v", err)
+	}
+	return r
+}
+
+// ---------------------------------------------------------------- drive
+
+var schedTier = map[string][2]int{ // plain runs, race runs
+	"quick":    {30_000, 3_000},
+	"thorough": {3_000_000, 300_000},
+}
+
+const schedRule = "seeded plans: 1-3 shared parsers/profiles (random option subsets, the four predefined profiles, the package-level functions), 0-3 shared base URLs (parsed, some taken through setters, some with SearchParams materialised before sharing), 2-4 tasks of 1-6 operations from the read-only vocabulary (Parse/ParseRef, (*Url).Parse against a shared base, getter bundle, Clone, Get/GetAll/Has/String on pre-materialised parameters, PercentEncodeString, NewUrl, Set/Clear/test on exported encode sets) plus private mutating follow-ups on the task's own results; real goroutines run the instrumented library, a yield point before every statement hands control to a seeded scheduler (strategies: uniform quanta, PCT priorities with 1-3 change points, stall-at-statement, operation-wise, sequential control). Oracles: Go race detector made blind to the simulator's hand-off (C14.race), every operation's observation equals the run-alone twin's (C14.result), deep reflection fingerprints of all shared objects and of every package-level variable of the module (C14.shared-unchanged). Distinct = distinct (interleaving hash, result hash); non-trivial = at least one context switch happened while the preempted task was inside a library call."
+
+func driveSched(kf *KnownFindings, t0 time.Time) int {
+	if *fRace == "" {
+		infra("C14 needs -racebin")
+	}
+	nPlain, nRace := schedTier[tier()][0], schedTier[tier()][1]
+	if *fRuns > 0 {
+		nPlain = *fRuns
+	}
+	if *fRaceN > 0 {
+		nRace = *fRaceN
+	}
+	fmt.Printf("sim: property=C14 tier=%s seed=%d plain-runs=%d race-runs=%d workers=%d sites=%d\n", tier(), masterSeed(), nPlain, nRace, *fWorkers, rt.NSites)
+	capSec := 1500
+	if tier() == "thorough" {
+		capSec = 6 * 3600
+	}
+	// phase A: race build
+	raceOuts, raceViol := runSchedChildren(*fRace, nRace, "race", capSec)
+	mr := merge(raceOuts)
+	if raceViol != nil {
+		return reportSchedViolation(raceViol, true, mr, nil, t0)
+	}
+	if mr.Viol != nil {
+		return reportSchedViolation(mr.Viol, true, mr, nil, t0)
+	}
+	// phase B: plain build, many more schedules, result + fingerprint oracles
+	plainOuts, _ := runSchedChildren(os.Args[0], nPlain, "plain", capSec)
+	mp := merge(plainOuts)
+	if mp.Viol != nil {
+		return reportSchedViolation(mp.Viol, false, mr, mp, t0)
+	}
+	writeSchedEvidence(mr, mp, 0, t0)
+	fmt.Printf("sim: C14 held on %d race-detector runs and %d plain runs (%d+%d context switches, %.1fs)\n", mr.Runs, mp.Runs, mr.Extra["switches"], mp.Extra["switches"], time.Since(t0).Seconds())
+	return 0
+}
+
+// runSchedChildren runs the workers; a worker that exits 66 (race detector) yields a violation whose
+// plan is regenerated from the run index it had flushed; a worker that exits 4 (task blocked on a
+// primitive the simulator does not own) is restarted from that run with operation-atomic quanta.
+func runSchedChildren(bin string, n int, tag string, capSec int) ([]*WorkerOut, *FoundViolation) {
+	tmp := *fTmp
+	workers := *fWorkers
+	type child struct {
+		cmd    *exec.Cmd
+		out    string
+		atomic bool
+		offset int
+	}
+	start := func(k, offset int, atomic bool) *child {
+		out := filepath.Join(tmp, fmt.Sprintf("w-C14-%s-%d.json", tag, k))
+		args := []string{"-mode", "worker", "-prop", "C14", "-seed", fmt.Sprint(masterSeed()), "-runs", fmt.Sprint(n), "-stride", fmt.Sprint(workers), "-offset", fmt.Sprint(offset), "-out", out, "-verif", *fVerif, "-tmp", tmp}
+		if atomic {
+			args = append(args, "-atomic")
+		}
+		cmd := exec.Command(bin, args...)
+		lf, _ := os.Create(out + ".log")
+		cmd.Stdout, cmd.Stderr = lf, lf
+		cmd.Env = append(os.Environ(), "GORACE=halt_on_error=1 exitcode=66 log_path="+out+".racelog")
+		if err := cmd.Start(); err != nil {
+			infra("start worker: %v", err)
+		}
+		return &child{cmd, out, atomic, offset}
+	}
+	type fin struct {
+		k   int
+		err error
+	}
+	cs := make([]*child, workers)
+	done := make(chan fin, workers*4)
+	wait := func(k int) { go func(c *child) { done <- fin{k, c.cmd.Wait()} }(cs[k]) }
+	for k := 0; k < workers; k++ {
+		cs[k] = start(k, k, false)
+		wait(k)
+	}
+	deadline := time.After(time.Duration(capSec) * time.Second)
+	var outs []*WorkerOut
+	var viol *FoundViolation
+	pending := workers
+	for pending > 0 {
+		select {
+		case f := <-done:
+			c := cs[f.k]
+			code := 0
+			if f.err != nil {
+				if ee, ok := f.err.(*exec.ExitError); ok {
+					code = ee.ExitCode()
+				} else {
+					infra("worker: %v", f.err)
+				}
+			}
+			switch code {
+			case 0:
+				var o WorkerOut
+				d, err := os.ReadFile(c.out)
+				if err != nil || json.Unmarshal(d, &o) != nil {
+					infra("worker %d wrote no result", f.k)
+				}
+				outs = append(outs, &o)
+				pending--
+			case 4:
+				var o WorkerOut
+				d, err := os.ReadFile(c.out)
+				if err != nil || json.Unmarshal(d, &o) != nil {
+					infra("worker %d wrote no result", f.k)
+				}
+				if c.atomic {
+					infra("C14 worker blocked even with operation-atomic quanta (run %d)", o.BlockedRun)
+				}
+				outs = append(outs, &o)
+				cs[f.k] = start(f.k, o.BlockedRun, true)
+				wait(f.k)
+			case 66:
+				pd, _ := os.ReadFile(c.out + ".progress")
+				var run int
+				fmt.Sscan(string(pd), &run)
+				text := ""
+				ms, _ := filepath.Glob(c.out + ".racelog.*")
+				for _, m := range ms {
+					d, _ := os.ReadFile(m)
+					text += string(d)
+				}
+				pl := genSchedPlan(masterSeed(), run)
+				v := &FoundViolation{Run: run, Plan: pl, V: Violation{Clause: "C14.race", Witness: map[string]string{"signature": raceSignature(text), "report": clip(text, 6000), "atomic": fmt.Sprint(c.atomic)}}}
+				if viol == nil || v.Run < viol.Run {
+					viol = v
+				}
+				pending--
+			default:
+				lg, _ := os.ReadFile(c.out + ".log")
+				infra("C14 worker %d (%s) exit %d\n%s", f.k, tag, code, tailStr(string(lg), 3000))
+			}
+		case <-deadline:
+			for _, c := range cs {
+				_ = c.cmd.Process.Kill()
+			}
+			infra("watchdog: C14 workers (%s) exceeded %d s", tag, capSec)
+		}
+	}
+	return outs, viol
+}
+
+func writeSchedEvidence(mr, mp *Merged, violations int, t0 time.Time) {
+	wall := time.Since(t0).Seconds()
+	if mp == nil {
+		mp = &Merged{Faults: map[string]int{}, Extra: map[string]int64{}, States: newHLL()}
+	}
+	hits := make([]uint64, rt.NSites+1)
+	for i := range hits {
+		if i < len(mr.Hits) {
+			hits[i] += mr.Hits[i]
+		}
+		if i < len(mp.Hits) {
+			hits[i] += mp.Hits[i]
+		}
+	}
+	hit, total, missed := siteCoverage("C14", hits)
+	if len(missed) > 60 {
+		missed = append(missed[:60], fmt.Sprintf("... and %d more", len(missed)-60))
+	}
+	faults := map[string]int{}
+	for k, v := range mr.Faults {
+		faults[k] += v
+	}
+	for k, v := range mp.Faults {
+		faults[k] += v
+	}
+	var samples []interface{}
+	for _, s := range append(mr.Samples, mp.Samples...) {
+		var v interface{}
+		_ = json.Unmarshal(s, &v)
+		samples = append(samples, v)
+	}
+	if len(samples) > 4 {
+		samples = samples[:4]
+	}
+	if len(samples) == 0 {
+		samples = append(samples, "no sample recorded")
+	}
+	st := newHLL()
+	st.Merge(mr.States)
+	st.Merge(mp.States)
+	runs := mr.Runs + mp.Runs
+	cov := map[string]interface{}{
+		"evaluations":         runs,
+		"distinct_nontrivial": mr.Distinct + mp.Distinct,
+		"rule":                schedRule,
+		"samples":             samples,
+		"engine":              "schedsim (seeded goroutine scheduler over AST-inserted yield points; race detector as oracle)",
+		"race_detector_runs":  mr.Runs,
+		"plain_runs":          mp.Runs,
+		"runs_per_hour":       int64(float64(runs) / wall * 3600),
+		"seeds_per_hour":      int64(float64(runs) / wall * 3600),
+		"simulated_time": map[string]interface{}{
+			"task_operations":               mr.Events + mp.Events,
+			"library_statements":            mr.Steps + mp.Steps,
+			"context_switches":              mr.Extra["switches"] + mp.Extra["switches"],
+			"switches_inside_library_calls": mr.Extra["switches_inside_library_calls"] + mp.Extra["switches_inside_library_calls"],
+			"unit":                          "no clock in this library; simulated time is counted in scheduled library statements",
+		},
+		"faults_fired":                    faults,
+		"distinct_interleavings_estimate": st.Count(),
+		"distinct_interleavings_measure":  "HyperLogLog (2^14 registers) over the hash of the sequence of (task, yield site at which it was preempted / operation boundary)",
+		"yield_sites_hit":                 hit,
+		"yield_sites_total":               total,
+		"anchor_sites_never_hit":          missed,
+		"determinism_reexecutions_ok":     mr.Redone + mp.Redone,
+		"race_extra":                      mr.Extra,
+		"plain_extra":                     mp.Extra,
+		"components": map[string]interface{}{
+			"real":   []string{"github.com/nlnwa/whatwg-url/url", "canonicalizer", "errors", "bits-and-blooms/bitset", "x/net/idna", "x/text", "Go runtime goroutines (parked and released one at a time)"},
+			"stub":   []string{},
+			"oracle": []string{"Go race detector (ThreadSanitizer) with the simulator's hand-off hidden via runtime.RaceDisable + go:norace", "twin run-alone execution", "reflection fingerprints of shared objects and all package-level variables"},
+		},
+	}
+	writeEvidence(&Evidence{
+		PropertyID: "C14", Tier: tier(), Seed: masterSeed(), Level: "exploration", Coverage: cov,
+		Assumptions: []string{
+			"exploration: the race oracle reports races between accesses that executed in some run; a racy path no plan reaches is not seen",
+			"not demanded: concurrent mutation of one value; concurrent first calls of SearchParams() on a shared URL",
+			"yield points are inserted at statement granularity; interleavings inside a single statement are covered by the race detector (any conflicting pair that executes is reported whatever the interleaving), not by the scheduler",
+		},
+		WallS: wall, Violations: violations,
+	})
+}
+
+// ---------------------------------------------------------------- violation: confirm, shrink, report
+
+func reportSchedViolation(fv *FoundViolation, race bool, mr, mp *Merged, t0 time.Time) int {
+	bin := os.Args[0]
+	if race {
+		bin = *fRace
+	}
+	clause := fv.V.Clause
+	atomic := fv.V.Witness["atomic"] == "true"
+	sig := fv.V.Witness["signature"]
+	// confirm alone in a fresh child; adopt the concrete schedule
+	first := runOne(bin, &fv.Plan, *fTmp, atomic)
+	matches := func(r oneResult) bool {
+		if clause == "C14.race" {
+			return r.Race && (sig == "" || r.RaceSig == sig)
+		}
+		return !r.Race && r.Res.Clause == clause
+	}
+	if !matches(first) && clause == "C14.race" && first.Race {
+		sig = first.RaceSig // batch-mode report may name other frames first; keep the alone-run signature
+	}
+	if !matches(first) {
+		infra("C14 violation %s of run %d did not reproduce alone in a fresh process", clause, fv.Run)
+	}
+	pl := fv.Plan
+	if len(pl.Schedule) == 0 && !first.Race {
+		pl.Schedule = first.Res.Schedule
+	}
+	if len(pl.Schedule) == 0 {
+		// race child died before reporting its schedule: obtain it from a plain child
+		p := runOne(os.Args[0], &fv.Plan, *fTmp, atomic)
+		pl.Schedule = p.Res.Schedule
+		if !matches(runOne(bin, &pl, *fTmp, atomic)) {
+			infra("C14 violation does not reproduce under its explicit schedule")
+		}
+	}
+	pred := func(p *Plan) bool { return matches(runOne(bin, p, *fTmp, atomic)) }
+	small := shrinkSched(pl, pred)
+	r1 := runOne(bin, &small, *fTmp, atomic)
+	r2 := runOne(bin, &small, *fTmp, atomic)
+	if !matches(r1) || !matches(r2) {
+		infra("minimised C14 plan does not reproduce deterministically")
+	}
+	rep := Replay{Property: "C14", Clause: clause, Plan: small, Trace: schedTrace(&small)}
+	if clause == "C14.race" {
+		rep.Witness = map[string]string{"signature": r1.RaceSig, "report": clip(r1.RaceText, 8000), "atomic": fmt.Sprint(atomic)}
+	} else {
+		rep.Witness = r1.Res.Witness
+		rep.Trace = append(rep.Trace, r1.Res.Trace...)
+	}
+	rep.Original.Seed, rep.Original.Run = fv.Plan.Seed, fv.Run
+	for _, t := range fv.Plan.Tasks {
+		rep.Original.Ops += len(t)
+	}
+	path := writeReplay("C14", &rep, fv.Run)
+	fmt.Printf("sim: C14 violated: clause %s (run %d)\n", clause, fv.Run)
+	for _, l := range rep.Trace {
+		fmt.Println("   ", l)
+	}
+	for _, k := range sortedWitness(rep.Witness) {
+		fmt.Printf("    %s: %s\n", k, rep.Witness[k])
+	}
+	if mr == nil {
+		mr = &Merged{Faults: map[string]int{}, Extra: map[string]int64{}, States: newHLL()}
+	}
+	writeSchedEvidence(mr, mp, 1, t0)
+	fmt.Printf("VIOLATION property=C14 replay=%s\n", path)
+	return 1
+}
+
+// shrinkSched: drop tasks, ops, shared objects, context switches; shorten strings.
+func shrinkSched(p Plan, pred failPred) Plan {
+	budget := 400
+	try := func(c Plan) bool {
+		if budget <= 0 {
+			return false
+		}
+		budget--
+		return pred(&c)
+	}
+	// 1. drop whole tasks (keep schedule entries consistent by renumbering)
+	for t := len(p.Tasks) - 1; t >= 0 && len(p.Tasks) > 1; t-- {
+		c := p
+		c.Tasks = append(append([][]Op(nil), p.Tasks[:t]...), p.Tasks[t+1:]...)
+		c.Schedule = nil
+		for _, q := range p.Schedule {
+			if q.T == t {
+				continue
+			}
+			if q.T > t {
+				q.T--
+			}
+			c.Schedule = append(c.Schedule, q)
+		}
+		if try(c) {
+			p = c
+		}
+	}
+	// 2. per task: ddmin over ops
+	for t := range p.Tasks {
+		t := t
+		get := func(p *Plan) []Op { return p.Tasks[t] }
+		set := func(p *Plan, o []Op) {
+			ts := append([][]Op(nil), p.Tasks...)
+			ts[t] = o
+			p.Tasks = ts
+		}
+		p = ddminOps(p, get, set, pred, &budget)
+	}
+	// 3. shared construction histories
+	for s := range p.Shared {
+		s := s
+		get := func(p *Plan) []Op { return p.Shared[s] }
+		set := func(p *Plan, o []Op) {
+			ss := append([][]Op(nil), p.Shared...)
+			ss[s] = o
+			p.Shared = ss
+		}
+		if len(p.Shared[s]) > 1 {
+			p = ddminOps(p, get, set, pred, &budget)
+		}
+	}
+	// 4. parser configurations: drop options
+	for i := range p.Parsers {
+		for k := 0; k < len(p.Parsers[i].Opts) && budget > 0; {
+			c := p
+			ps := append([]Config(nil), p.Parsers...)
+			ps[i].Opts = append(append([]OptSpec(nil), p.Parsers[i].Opts[:k]...), p.Parsers[i].Opts[k+1:]...)
+			c.Parsers = ps
+			if try(c) {
+				p = c
+			} else {
+				k++
+			}
+		}
+	}
+	// 5. schedule: truncate (fallback = lowest runnable task to completion), merge neighbours, shorten
+	for len(p.Schedule) > 0 && budget > 0 {
+		c := p
+		c.Schedule = p.Schedule[:len(p.Schedule)/2]
+		if try(c) {
+			p = c
+		} else {
+			break
+		}
+	}
+	for i := len(p.Schedule) - 1; i >= 0 && budget > 0; i-- {
+		if i >= len(p.Schedule) {
+			continue
+		}
+		c := p
+		c.Schedule = append(append([]Quantum(nil), p.Schedule[:i]...), p.Schedule[i+1:]...)
+		if try(c) {
+			p = c
+		}
+	}
+	for i := range p.Schedule {
+		if p.Schedule[i].Kind == rt.KStmts && p.Schedule[i].N > 1 && budget > 0 {
+			c := p
+			c.Schedule = append([]Quantum(nil), p.Schedule...)
+			c.Schedule[i].Kind, c.Schedule[i].N = rt.KOpEnd, 0
+			if try(c) {
+				p = c
+			}
+		}
+	}
+	// 6. strings
+	for t := range p.Tasks {
+		t := t
+		get := func(p *Plan) []Op { return p.Tasks[t] }
+		set := func(p *Plan, o []Op) {
+			ts := append([][]Op(nil), p.Tasks...)
+			ts[t] = o
+			p.Tasks = ts
+		}
+		b := budget
+		if b > 60 {
+			b = 60
+		}
+		budget -= b
+		p = shrinkOpsStrings(p, get, set, pred, &b)
+		budget += b
+	}
+	return p
+}
+
+func replaySched(rep *Replay, kf *KnownFindings) int {
+	bin := os.Args[0]
+	if rep.Clause == "C14.race" {
+		if *fRace == "" {
+			infra("replaying a C14.race violation needs -racebin")
+		}
+		bin = *fRace
+	}
+	atomic := rep.Witness["atomic"] == "true"
+	r := runOne(bin, &rep.Plan, *fTmp, atomic)
+	for _, l := range schedTrace(&rep.Plan) {
+		fmt.Println("   ", l)
+	}
+	if rep.Clause == "C14.race" {
+		if r.Race && r.RaceSig == rep.Witness["signature"] {
+			fmt.Println(clip(r.RaceText, 4000))
+			fmt.Printf("VIOLATION property=C14 replay=%s\n", *fFile)
+			return 1
+		}
+		if r.Race {
+			fmt.Printf("replay: a different race fired: %s (expected %s)\n", r.RaceSig, rep.Witness["signature"])
+			return 3
+		}
+		fmt.Println("replay: not reproduced")
+		return 3
+	}
+	if !r.Race && r.Res.Clause == rep.Clause {
+		for _, l := range r.Res.Trace {
+			fmt.Println("   ", l)
+		}
+		for _, k := range sortedWitness(r.Res.Witness) {
+			fmt.Printf("    %s: %s\n", k, r.Res.Witness[k])
+		}
+		fmt.Printf("VIOLATION property=C14 replay=%s\n", *fFile)
+		return 1
+	}
+	fmt.Printf("replay: not reproduced (got clause %q race=%v)\n", r.Res.Clause, r.Race)
+	return 3
+}
